@@ -12,20 +12,34 @@
 (***************************************************************************)
 EXTENDS Integers, Sequences, FiniteSets, TLC
 
-CONSTANTS Callers,      \* caller ids
-          Keys,         \* metadata keys the callers merge (caller c may set any)
-          MaxCalls,     \* calls per caller
-          Locked        \* TRUE: the per-node lock is taken (the code); FALSE: diagnostic
+CONSTANTS
+  \* @type: Set(Str);
+  Callers,      \* caller ids
+  \* @type: Set(Str);
+  Keys,         \* metadata keys the callers merge (caller c may set any)
+  \* @type: Int;
+  MaxCalls,     \* calls per caller
+  \* @type: Bool;
+  Locked        \* TRUE: the per-node lock is taken (the code); FALSE: diagnostic
 
 VARIABLES
+  \* @type: Int;
   count,      \* _access_count stored on the node
+  \* @type: Set(Str);
   keys,       \* set of metadata keys stored on the node
+  \* @type: Str;
   holder,     \* caller holding the node lock, or "none"
+  \* @type: Str -> Str;
   pc,         \* [Callers -> {"idle","rf.read","rf.write","sm.read","sm.write"}]
+  \* @type: Str -> { count: Int, keys: Set(Str) };
   local,      \* [Callers -> what the caller read: a record [count, keys]]
+  \* @type: Str -> Str;
   arg,        \* [Callers -> key being merged]
+  \* @type: Str -> Int;
   ncalls,     \* [Callers -> number of calls started]
+  \* @type: Int;
   doneRf,     \* number of VReinforce calls that returned
+  \* @type: Set(Str);
   doneKeys    \* set of keys whose VSetMetadata returned
 
 vars == <<count, keys, holder, pc, local, arg, ncalls, doneRf, doneKeys>>
